@@ -25,107 +25,107 @@ func runQTopic(a args) error {
 	subHdr := http.Header{"Authorization": {"Bearer " + subTok}}
 	ci := -1
 	for mask := 0; mask < 32; mask++ {
-	for _, bodyTopic := range []bool{true, false} {
-	for _, private := range []bool{false, true} {
-	for _, kind := range []string{"local", "bolt"} {
-		ci++
-		env := hx.NewEnv(kind)
-		all := hx.Subscribe(env.Hub, "/.well-known/mercure?topic=*", subHdr)
-		sec := hx.Subscribe(env.Hub, "/.well-known/mercure?topic="+url.QueryEscape(secret), subHdr)
-		all.W.WaitWrites(1, 5*time.Second)
-		sec.W.WaitWrites(1, 5*time.Second)
-		// the query string: every subset of the update fields
-		q := url.Values{}
-		var inQuery []string
-		for bit, f := range []string{"topic", "data", "id", "type", "private"} {
-			if mask>>bit&1 == 1 {
-				inQuery = append(inQuery, f)
-				switch f {
-				case "topic":
-					q.Add("topic", secret)
-				case "data":
-					q.Set("data", "from-the-query")
-				case "id":
-					q.Set("id", "query-id")
-				case "type":
-					q.Set("type", "query-type")
-				case "private":
-					q.Set("private", "on")
-				}
-			}
-		}
-		form := url.Values{"data": {"from-the-body"}, "id": {fmt.Sprintf("body-id-%d", ci)}}
-		if bodyTopic {
-			form.Set("topic", allowed)
-		}
-		if private {
-			form.Set("private", "on")
-		}
-		target := "/.well-known/mercure"
-		if len(q) > 0 {
-			target += "?" + q.Encode()
-		}
-		rq := httptest.NewRequest(http.MethodPost, target, strings.NewReader(form.Encode()))
-		rq.Header.Set("Content-Type", "application/x-www-form-urlencoded")
-		rq.Header.Set("Authorization", "Bearer "+pubTok)
-		w := httptest.NewRecorder()
-		env.Hub.ServeHTTP(w, rq)
-		// a sentinel on both witnesses' topics closes the observation window
-		admin := http.Header{"Authorization": {"Bearer " + c02Admin}}
-		if code, _ := hx.Post(env.Hub, url.Values{"topic": {allowed, secret}, "id": {"sentinel"}}, admin); code != 200 {
-			return fmt.Errorf("sentinel refused: %d", code)
-		}
-		for _, s := range []*hx.Stream{all, sec} {
-			deadline := time.Now().Add(5 * time.Second)
-			for !strings.Contains(s.W.Body(), "id: sentinel\n") {
-				if time.Now().After(deadline) {
-					return fmt.Errorf("sentinel not delivered")
-				}
-				s.W.WaitWrites(s.W.NumWrites()+1, 100*time.Millisecond)
-			}
-		}
-		// events before the sentinel, as (id code, data code, type code): 1 = the body's value, 2 = the query's, 0 = anything else
-		codes := func(body string) []string {
-			var l []string
-			for _, ev := range strings.Split(body, "\n\n") {
-				if !strings.Contains(ev, "id: ") || strings.Contains(ev, "id: sentinel") {
-					continue
-				}
-				id, data, typ := 0, 0, 1
-				for _, ln := range strings.Split(ev, "\n") {
-					switch {
-					case ln == "id: "+form.Get("id"):
-						id = 1
-					case ln == "id: query-id":
-						id = 2
-					case ln == "data: from-the-body":
-						data = 1
-					case ln == "data: from-the-query":
-						data = 2
-					case strings.HasPrefix(ln, "event: query-type"):
-						typ = 2
-					case strings.HasPrefix(ln, "event: "):
-						typ = 0
+		for _, bodyTopic := range []bool{true, false} {
+			for _, private := range []bool{false, true} {
+				for _, kind := range []string{"local", "bolt"} {
+					ci++
+					env := hx.NewEnv(kind)
+					all := hx.Subscribe(env.Hub, "/.well-known/mercure?topic=*", subHdr)
+					sec := hx.Subscribe(env.Hub, "/.well-known/mercure?topic="+url.QueryEscape(secret), subHdr)
+					all.W.WaitWrites(1, 5*time.Second)
+					sec.W.WaitWrites(1, 5*time.Second)
+					// the query string: every subset of the update fields
+					q := url.Values{}
+					var inQuery []string
+					for bit, f := range []string{"topic", "data", "id", "type", "private"} {
+						if mask>>bit&1 == 1 {
+							inQuery = append(inQuery, f)
+							switch f {
+							case "topic":
+								q.Add("topic", secret)
+							case "data":
+								q.Set("data", "from-the-query")
+							case "id":
+								q.Set("id", "query-id")
+							case "type":
+								q.Set("type", "query-type")
+							case "private":
+								q.Set("private", "on")
+							}
+						}
 					}
+					form := url.Values{"data": {"from-the-body"}, "id": {fmt.Sprintf("body-id-%d", ci)}}
+					if bodyTopic {
+						form.Set("topic", allowed)
+					}
+					if private {
+						form.Set("private", "on")
+					}
+					target := "/.well-known/mercure"
+					if len(q) > 0 {
+						target += "?" + q.Encode()
+					}
+					rq := httptest.NewRequest(http.MethodPost, target, strings.NewReader(form.Encode()))
+					rq.Header.Set("Content-Type", "application/x-www-form-urlencoded")
+					rq.Header.Set("Authorization", "Bearer "+pubTok)
+					w := httptest.NewRecorder()
+					env.Hub.ServeHTTP(w, rq)
+					// a sentinel on both witnesses' topics closes the observation window
+					admin := http.Header{"Authorization": {"Bearer " + c02Admin}}
+					if code, _ := hx.Post(env.Hub, url.Values{"topic": {allowed, secret}, "id": {"sentinel"}}, admin); code != 200 {
+						return fmt.Errorf("sentinel refused: %d", code)
+					}
+					for _, s := range []*hx.Stream{all, sec} {
+						deadline := time.Now().Add(5 * time.Second)
+						for !strings.Contains(s.W.Body(), "id: sentinel\n") {
+							if time.Now().After(deadline) {
+								return fmt.Errorf("sentinel not delivered")
+							}
+							s.W.WaitWrites(s.W.NumWrites()+1, 100*time.Millisecond)
+						}
+					}
+					// events before the sentinel, as (id code, data code, type code): 1 = the body's value, 2 = the query's, 0 = anything else
+					codes := func(body string) []string {
+						var l []string
+						for _, ev := range strings.Split(body, "\n\n") {
+							if !strings.Contains(ev, "id: ") || strings.Contains(ev, "id: sentinel") {
+								continue
+							}
+							id, data, typ := 0, 0, 1
+							for _, ln := range strings.Split(ev, "\n") {
+								switch {
+								case ln == "id: "+form.Get("id"):
+									id = 1
+								case ln == "id: query-id":
+									id = 2
+								case ln == "data: from-the-body":
+									data = 1
+								case ln == "data: from-the-query":
+									data = 2
+								case strings.HasPrefix(ln, "event: query-type"):
+									typ = 2
+								case strings.HasPrefix(ln, "event: "):
+									typ = 0
+								}
+							}
+							l = append(l, fmt.Sprintf("(%d, %d, %d)", id, data, typ))
+						}
+						return l
+					}
+					allEv, secEv := codes(all.W.Body()), codes(sec.W.Body())
+					all.Close()
+					sec.Close()
+					env.Close()
+					term := fmt.Sprintf("{| qt_status := %d; qt_body_topic := %v; qt_all := [%s]; qt_secret := [%s] |}", w.Code, bodyTopic, strings.Join(allEv, "; "), strings.Join(secEv, "; "))
+					hasTopic := false
+					for _, f := range inQuery {
+						hasTopic = hasTopic || f == "topic"
+					}
+					out.Add(term, map[string]any{"transport": kind, "fields_in_query": inQuery, "topic_in_body": bodyTopic, "status": w.Code, "events_on_star": allEv, "events_on_secret": secEv},
+						hasTopic, "transport:"+kind, fmt.Sprintf("topic-in-query:%v", hasTopic), fmt.Sprintf("topic-in-body:%v", bodyTopic), fmt.Sprintf("status:%d", w.Code))
 				}
-				l = append(l, fmt.Sprintf("(%d, %d, %d)", id, data, typ))
 			}
-			return l
 		}
-		allEv, secEv := codes(all.W.Body()), codes(sec.W.Body())
-		all.Close()
-		sec.Close()
-		env.Close()
-		term := fmt.Sprintf("{| qt_status := %d; qt_body_topic := %v; qt_all := [%s]; qt_secret := [%s] |}", w.Code, bodyTopic, strings.Join(allEv, "; "), strings.Join(secEv, "; "))
-		hasTopic := false
-		for _, f := range inQuery {
-			hasTopic = hasTopic || f == "topic"
-		}
-		out.Add(term, map[string]any{"transport": kind, "fields_in_query": inQuery, "topic_in_body": bodyTopic, "status": w.Code, "events_on_star": allEv, "events_on_secret": secEv},
-			hasTopic, "transport:"+kind, fmt.Sprintf("topic-in-query:%v", hasTopic), fmt.Sprintf("topic-in-body:%v", bodyTopic), fmt.Sprintf("status:%d", w.Code))
-	}
-	}
-	}
 	}
 	out.Extra["exhaustive"] = true
 	return out.Flush()
